@@ -2,6 +2,7 @@ import PicoProofs.DecSafe
 import PicoProofs.GoTieApi
 import PicoProofs.GoTieWire
 import PicoProofs.Tie
+import PicoProofs.WireTake
 /-
 C04 — Unmarshal is total and memory-safe on arbitrary bytes.
 
@@ -74,5 +75,15 @@ theorem C04_input_never_written :
 ordinary error in the model -/
 example : ∃ d m, unmarshal [⟨[⟨2, .scalar .int64, 0, 0, false, 0⟩], true, false⟩] 0 [0x78#8] (.msg [.num 0] []) = .ok (d, m) :=
   unmarshal_total _ _ _ _
+
+/-- LOCALITY of the tokenizer (`ConsumeFieldValue`, nested groups included): the answer on an accepted
+value depends only on the bytes it reports as consumed — whatever follows them (another field, the
+rest of a shared buffer, nothing at all) is never looked at -/
+theorem C04_tokenizer_reads_only_what_it_consumes (num : Int) (typ : Nat) (a c c' : Bytes)
+    (h : 0 ≤ Wire.consumeFieldValue num typ (a ++ c)) (hle : Wire.consumeFieldValue num typ (a ++ c) ≤ a.length) :
+    Wire.consumeFieldValue num typ (a ++ c') = Wire.consumeFieldValue num typ (a ++ c) := by
+  have h1 := Wire.consumeFieldValue_of_append num typ a c h hle
+  rw [← h1] at h ⊢
+  exact Wire.consumeFieldValue_append num typ a c' h
 
 end Pico.Props
